@@ -386,6 +386,9 @@ func init() {
 	e = PropEngines["C01"]
 	e.Variants = []string{"sched", "sched", "iofault"}
 	PropEngines["C01"] = e
+	e = PropEngines["C02"]
+	e.Variants = []string{"sched", "sched", "iofault"}
+	PropEngines["C02"] = e
 	PropEngines["C05"] = struct {
 		Engine   string
 		Variants []string
